@@ -55,9 +55,17 @@ def variants_of(task):
         out.append((label, f, g, (ctx, ctx)) + ((allow,) if allow else ()))
 
     def strict_ok(k):
-        # STRICT asserts divisibility at run time: an AssertionError is its documented refusal when some length is not a multiple
-        nd = any(n % k != 0 for n in lens)
-        return (lambda ex: isinstance(ex, AssertionError)) if nd else None
+        # STRICT asserts divisibility at run time: an AssertionError is its documented refusal exactly when, on this run, some for
+        # loop of the ORIGINAL program iterates a number of times that is not a multiple of k (the trip count of
+        # `range(1, len(xs) + 1, 2)` is not a list length, so the counts are observed on a traced run of the original)
+        def allow(ex, args=None):
+            if not isinstance(ex, AssertionError):
+                return False
+            if args is None:
+                return any(n % k != 0 for n in lens)
+            return any(n % k != 0 for n in trip_counts(f, args, ctx))
+        allow.wants_args = True
+        return allow
 
     def nsites(strategy, **kw):
         try:
@@ -102,6 +110,35 @@ def variants_of(task):
         if txt not in seen:
             seen[txt] = v[0]; uniq.append(v)
     return uniq
+
+
+def trip_counts(f, args, ctx):
+    """number of iterations of every for loop the original program enters on these arguments (traced run of the original)"""
+    from . import tracer
+    from fpy2.ast import fpyast as A
+    from fpy2.ast.visitor import DefaultVisitor
+    from fpy2.interpret import byte
+    iters = set()
+
+    class V(DefaultVisitor):
+        def _visit_for(self, stmt, c):
+            iters.add(id(stmt.iterable))
+            return super()._visit_for(stmt, c)
+    V()._visit_function(f.ast, None)
+    counts = []
+
+    def cb(e, v):
+        if id(e) in iters:
+            try:
+                counts.append(len(v))
+            except TypeError:
+                pass
+        return v
+    try:
+        tracer.run_traced(byte.BytecodeInterpreter(), f, args, ctx, cb)
+    except Exception:  # noqa
+        pass
+    return counts
 
 
 def describe(tier):
